@@ -62,7 +62,7 @@ Definition zremove (x : Z) (l : list Z) : list Z := filter (fun y => negb (Z.eqb
 Definition lstep (s : lstate) (e : event) : option lstate :=
   match e with
   | ENew sid => if zmem sid (l_open s) || zmem sid (l_done s) then None
-                else Some (mkL (sid :: l_open s) (l_done s))
+                else Some (mkL (l_open s ++ [sid]) (l_done s))
   | EData sid _ _ _ _ _ _ _ => if zmem sid (l_open s) then Some s else None
   | EDone sid _ => if zmem sid (l_open s) then Some (mkL (zremove sid (l_open s)) (sid :: l_done s))
                    else None
